@@ -23,6 +23,7 @@ EXPLANATION = (
     " Also decided (rules added after the fifth blind round): (R7.7) a typed matcher built for a nested record receives the whole query (type path and attribute chain) of the matcher that builds it; (R7.8) the interpreted namespace, in which generator variables are bound, is rebuilt before every evaluation."
     " Rules added after the sixth blind round: (R7.9) a generator variable is unbound when its generator ends; (R7.10) the expression text reaches compile() as given; (R7.11) get_field returns the plain three-argument getattr."
     " Rules added after the seventh blind round: (R7.12) in field_equals / field_contains every needle that is compared with or searched in the field value has been lowered on every path on which the nocase flag is on - decided by reaching definitions and reachability under the flag, through locals, loops, comprehensions and lists built in place."
+    " Taken over at the end of the session: (R7.13 = R10.2, R7.14 = R10.3 of C10) neither engine carries per-record state from one record to the next."
 )
 RULE_SUMMARY = ("instances: (node kind, field) pairs, table entries, special methods; non-trivial = required reading a branch "
                 "body, a lambda or a method body")
@@ -754,6 +755,10 @@ def run(ctx):
                           f"with {flag} on derives from the caller's `{raw}` without having been lowered: a needle with an upper-case letter never matches", n,
                           f"needles lowered whenever {flag} is on", key=f"R7.12:{hf.name}:needle-not-folded")
     ctx.floor("R7.12", "needle/haystack tests in field_equals and field_contains", n12, 3)
+
+    # ------------------------------------------------------------------ sibling rules: no state carried from one record to the next
+    ctx.import_rule("C10", "R10.2", "R7.13", "the Python meaning of an expression is a function of the record: the interpreted matcher starts every record with fresh data")
+    ctx.import_rule("C10", "R10.3", "R7.14", "the Python meaning of an expression is a function of the record: the compiled matcher keeps no per-record attribute between calls")
 
 
 
